@@ -496,6 +496,13 @@ PPL::Grid::relation_with(const Grid_Generator& g) const {
     return Poly_Gen_Relation::subsumes();
   }
 
+  // An empty grid subsumes nothing, also when it is not yet known to
+  // be empty (its inconsistent congruences are satisfied by any
+  // parameter or line orthogonal to them).
+  if (!generators_are_up_to_date() && !update_generators()) {
+    return Poly_Gen_Relation::nothing();
+  }
+
   if (!congruences_are_up_to_date()) {
     update_congruences();
   }
